@@ -63,6 +63,19 @@ IntegrityExplained(prev, line) ==
      /\ \A a \in DOMAIN m.apps :
           m.apps[a].unschedule = (a \in marked \/ (a \in DOMAIN pm.apps /\ pm.apps[a].unschedule))
 
+(* the server state record published in /placement/<server> is the state the    *)
+(* model holds (what `treadmill admin` and a restarted master read)             *)
+StateRecordOk(line) ==
+  \A s \in DOMAIN line.model.servers :
+    s \in DOMAIN line.store.placement =>
+      \* (a server that never reported has no record yet: it counts as down)
+      /\ IF line.store.placement[s].state = "" THEN line.model.servers[s].state = "down"
+         ELSE line.store.placement[s].state = line.model.servers[s].state
+      \* (the time matters - and is kept in step - only while the server is not up:
+      \* a re-created up server keeps its construction time in the model)
+      /\ (line.model.servers[s].state # "up" /\ line.store.placement[s].state # "") =>
+            line.store.placement[s].since = line.model.servers[s].since
+
 AfterCrash(prev) == "crashed" \in DOMAIN prev /\ prev.crashed
 
 Verdict(prev, line) ==
@@ -80,7 +93,7 @@ Verdict(prev, line) ==
                \cup E("C10", AfterCrash(prev))
                \cup E("C11", C11ex(CanonStore(line.prestore), CanonModel(line.loaded)))]
   ELSE IF line.ev \in {"Cycle", "CrashCycle"} /\ completed
-  THEN [fail |-> dup \cup Published(line),
+  THEN [fail |-> dup \cup Published(line) \cup F("C08.stateRecord", StateRecordOk(line)),
         ex |-> E("C09", C09ex(CanonStore(line.store), CanonModel(line.model)))]
   ELSE IF line.ev = "Integrity" /\ prev.model.alive
   THEN [fail |-> dup \cup F("ext.pendingStart", IntegrityExplained(prev, line)),
